@@ -78,6 +78,8 @@ func v2Scenarios() map[string][]byte {
 }
 
 type v2T struct {
+	aliasOf map[string]string // C01: document key -> key of a document with the same words
+	byKey   map[string]v2Doc
 	out  *vuWriter
 	nIn  int
 	rng  *rand.Rand
